@@ -138,6 +138,29 @@ func runOverlayChild(id string, ov map[string][]byte) ([]string, error) {
 
 func runCheckOverlay(id, specFile string) int {
 	c, ok := checkers[id]
+	if id == "ALL" {
+		// development mode (mutation sweep): all properties' rules on one load
+		ids := make([]string, 0, len(checkers))
+		for k := range checkers {
+			ids = append(ids, k)
+		}
+		sort.Strings(ids)
+		c, ok = func(p *Prog, r *Report) {
+			for _, k := range ids {
+				sub := NewReport(k, "quick", p)
+				func() {
+					defer func() {
+						if e := recover(); e != nil {
+							r.Infra = append(r.Infra, fmt.Sprintf("%s: analyser panic: %v", k, e))
+						}
+					}()
+					checkers[k](p, sub)
+				}()
+				r.extraKeys = append(r.extraKeys, sub.FailingKeys()...)
+				r.Infra = append(r.Infra, sub.Infra...)
+			}
+		}, true
+	}
 	if !ok {
 		return 2
 	}
@@ -170,7 +193,7 @@ func runCheckOverlay(id, specFile string) int {
 			}()
 			c(p, r)
 		}()
-		out.Keys = r.FailingKeys()
+		out.Keys = append(r.FailingKeys(), r.extraKeys...)
 		out.Infra = append(out.Infra, r.Infra...)
 	}
 	j, _ := json.Marshal(out)
